@@ -254,11 +254,13 @@ public:
   explicit StubSpanExporter(std::shared_ptr<XCore> x) : x_(std::move(x)) {}
   std::unique_ptr<sdktrace::Recordable> MakeRecordable() noexcept override
   {
+    hz::HarnessCode hc_;
     return std::unique_ptr<sdktrace::Recordable>(new sdktrace::SpanData);
   }
   sdkcommon::ExportResult Export(
       const nostd::span<std::unique_ptr<sdktrace::Recordable>> &spans) noexcept override
   {
+    hz::HarnessCode hc_;
     std::vector<std::pair<int64_t, int64_t>> items;
     for (auto &r : spans)
     {
@@ -272,8 +274,8 @@ public:
     }
     return x_->do_export(items);
   }
-  bool ForceFlush(std::chrono::microseconds) noexcept override { return x_->do_flush(); }
-  bool Shutdown(std::chrono::microseconds) noexcept override { return x_->do_shutdown(); }
+  bool ForceFlush(std::chrono::microseconds) noexcept override { hz::HarnessCode hc_; return x_->do_flush(); }
+  bool Shutdown(std::chrono::microseconds) noexcept override { hz::HarnessCode hc_; return x_->do_shutdown(); }
 
 private:
   std::shared_ptr<XCore> x_;
@@ -285,11 +287,13 @@ public:
   explicit StubLogExporter(std::shared_ptr<XCore> x) : x_(std::move(x)) {}
   std::unique_ptr<sdklogs::Recordable> MakeRecordable() noexcept override
   {
+    hz::HarnessCode hc_;
     return std::unique_ptr<sdklogs::Recordable>(new sdklogs::ReadWriteLogRecord);
   }
   sdkcommon::ExportResult Export(
       const nostd::span<std::unique_ptr<sdklogs::Recordable>> &records) noexcept override
   {
+    hz::HarnessCode hc_;
     std::vector<std::pair<int64_t, int64_t>> items;
     for (auto &r : records)
     {
@@ -305,8 +309,8 @@ public:
     }
     return x_->do_export(items);
   }
-  bool ForceFlush(std::chrono::microseconds) noexcept override { return x_->do_flush(); }
-  bool Shutdown(std::chrono::microseconds) noexcept override { return x_->do_shutdown(); }
+  bool ForceFlush(std::chrono::microseconds) noexcept override { hz::HarnessCode hc_; return x_->do_flush(); }
+  bool Shutdown(std::chrono::microseconds) noexcept override { hz::HarnessCode hc_; return x_->do_shutdown(); }
 
 private:
   std::shared_ptr<XCore> x_;
@@ -318,6 +322,7 @@ public:
   explicit StubMetricExporter(std::shared_ptr<XCore> x) : x_(std::move(x)) {}
   sdkcommon::ExportResult Export(const sdkmet::ResourceMetrics &data) noexcept override
   {
+    hz::HarnessCode hc_;
     // one counter, one series: report its cumulative sum (base-4 coded)
     std::vector<std::pair<int64_t, int64_t>> items;
     int64_t sum = 0;
@@ -338,10 +343,11 @@ public:
   sdkmet::AggregationTemporality GetAggregationTemporality(
       sdkmet::InstrumentType) const noexcept override
   {
+    hz::HarnessCode hc_;
     return sdkmet::AggregationTemporality::kCumulative;
   }
-  bool ForceFlush(std::chrono::microseconds) noexcept override { return x_->do_flush(); }
-  bool Shutdown(std::chrono::microseconds) noexcept override { return x_->do_shutdown(); }
+  bool ForceFlush(std::chrono::microseconds) noexcept override { hz::HarnessCode hc_; return x_->do_flush(); }
+  bool Shutdown(std::chrono::microseconds) noexcept override { hz::HarnessCode hc_; return x_->do_shutdown(); }
 
 private:
   std::shared_ptr<XCore> x_;
@@ -356,6 +362,7 @@ public:
               const char *msg,
               const sdkcommon::AttributeMap &) noexcept override
   {
+    hz::HarnessCode hc_;
     if (msg && strstr(msg, "queue is full"))
       ev(E_WARN_FULL);
   }
@@ -460,8 +467,8 @@ struct SpanDirect : Pipeline
     r->SetName(span_tag(p, k));
     proc->OnEnd(std::move(r));
   }
-  bool flush(int64_t to, int) override { return proc->ForceFlush(std::chrono::microseconds(to)); }
-  bool shutdown(int64_t to, int) override { return proc->Shutdown(std::chrono::microseconds(to)); }
+  bool flush(int64_t to, int) override { hz::HarnessCode hc_; return proc->ForceFlush(std::chrono::microseconds(to)); }
+  bool shutdown(int64_t to, int) override { hz::HarnessCode hc_; return proc->Shutdown(std::chrono::microseconds(to)); }
 };
 
 struct LogDirect : Pipeline
@@ -482,8 +489,8 @@ struct LogDirect : Pipeline
     r->SetEventId(p * 1000 + k, "");
     proc->OnEmit(std::move(r));
   }
-  bool flush(int64_t to, int) override { return proc->ForceFlush(std::chrono::microseconds(to)); }
-  bool shutdown(int64_t to, int) override { return proc->Shutdown(std::chrono::microseconds(to)); }
+  bool flush(int64_t to, int) override { hz::HarnessCode hc_; return proc->ForceFlush(std::chrono::microseconds(to)); }
+  bool shutdown(int64_t to, int) override { hz::HarnessCode hc_; return proc->Shutdown(std::chrono::microseconds(to)); }
 };
 
 // processor layout of provider worlds: bit i of `layout` = processor i is simple
@@ -522,8 +529,8 @@ struct SpanProvider : Pipeline
     auto s = tracer->StartSpan(span_tag(p, k));
     s->End();
   }
-  bool flush(int64_t to, int) override { return prov->ForceFlush(std::chrono::microseconds(to)); }
-  bool shutdown(int64_t to, int) override { return prov->Shutdown(std::chrono::microseconds(to)); }
+  bool flush(int64_t to, int) override { hz::HarnessCode hc_; return prov->ForceFlush(std::chrono::microseconds(to)); }
+  bool shutdown(int64_t to, int) override { hz::HarnessCode hc_; return prov->Shutdown(std::chrono::microseconds(to)); }
 };
 
 struct LogProvider : Pipeline
@@ -565,8 +572,8 @@ struct LogProvider : Pipeline
       logger->EmitLogRecord(std::move(r));
     }
   }
-  bool flush(int64_t to, int) override { return prov->ForceFlush(std::chrono::microseconds(to)); }
-  bool shutdown(int64_t to, int) override { return prov->Shutdown(std::chrono::microseconds(to)); }
+  bool flush(int64_t to, int) override { hz::HarnessCode hc_; return prov->ForceFlush(std::chrono::microseconds(to)); }
+  bool shutdown(int64_t to, int) override { hz::HarnessCode hc_; return prov->Shutdown(std::chrono::microseconds(to)); }
 };
 
 struct Periodic : Pipeline
@@ -609,14 +616,14 @@ struct Periodic : Pipeline
     counter = meter->CreateUInt64Counter("c");
   }
   // measurement (p, k) adds 4^(p*8+k): every measurement is one base-4 digit of the sum
-  void produce(int p, int k) override { counter->Add((uint64_t)1 << (2 * (p * 8 + k))); }
+  void produce(int p, int k) override { hz::HarnessCode hc_; counter->Add((uint64_t)1 << (2 * (p * 8 + k))); }
   bool flush(int64_t to, int via) override
   {
     if (via == 1)
       return prov->ForceFlush(std::chrono::microseconds(to));
     return readers[0]->ForceFlush(std::chrono::microseconds(to));
   }
-  bool shutdown(int64_t to, int) override { return prov->Shutdown(std::chrono::microseconds(to)); }
+  bool shutdown(int64_t to, int) override { hz::HarnessCode hc_; return prov->Shutdown(std::chrono::microseconds(to)); }
 };
 
 // ------------------------------------------------------------------- the run
@@ -1255,6 +1262,7 @@ void check(const Case &c, const vsim::RunResult &)
 void generate(const std::string &prop, Rng &wl, Rng &fl, Case &c)
 {
   vsim::SimKnobs sk;
+  sk.allow_call_points = true;
   sk.allow_cas_spurious = true;
   sk.allow_cv_spurious  = true;
   sk.allow_stall        = true;
